@@ -514,7 +514,7 @@ class SymtableCodeGen(AbstractCodeGen):
     # noinspection PyUnusedLocal
     def genSequence(self, data, classmode=False):
         cols = data[0]
-        self._cols.update(cols)
+        self._cols.update([(self.transOpers(col), syntax) for col, syntax in cols])
         return '', ''
 
     # noinspection PyUnusedLocal
